@@ -42,10 +42,16 @@ type Packet struct {
 	Body  []byte
 	// Offset of the packet in the file it was parsed from.
 	Offset int
+	// HeaderLen, if non-zero, is written into the length field instead of
+	// the true length (the packet MD5 does not cover that field).
+	HeaderLen uint64
 }
 
-// Bytes serialises the packet with a correct length and MD5.
+// Bytes serialises the packet with a correct length (or HeaderLen) and MD5.
 func (p Packet) Bytes() []byte {
+	if p.HeaderLen != 0 {
+		return p.BytesWith(p.HeaderLen, nil)
+	}
 	return p.BytesWith(uint64(64+len(p.Body)), nil)
 }
 
